@@ -129,9 +129,30 @@ func (c *Ctx) checkExactMatch(r *Result, rule string, fn *ssa.Function) {
 	}
 	walk(fn)
 	keys := keyValuesOf(fn)
+	// helpers the lookup hands the requested name to (the search loop may have been extracted): judged like the
+	// function itself, with the parameters that receive the name as keys
+	helperKeys := map[*ssa.Function][]ssa.Value{}
+	for _, sc := range scopesOf(fn, keys...) {
+		if sc.call == nil {
+			continue
+		}
+		for p, a := range sc.bind {
+			for _, k := range keys {
+				if derivedFromValue(a, k, 0) {
+					helperKeys[sc.fn] = append(helperKeys[sc.fn], p)
+				}
+			}
+		}
+		if len(helperKeys[sc.fn]) > 0 {
+			walk(sc.fn)
+		}
+	}
 	for _, f := range fns {
 		var roots []ssa.Value
 		roots = append(roots, keys...)
+		for g := f; g != nil; g = g.Parent() {
+			roots = append(roots, helperKeys[g]...)
+		}
 		// free variables that capture the key parameters
 		for _, fv := range f.FreeVars {
 			roots = append(roots, fv)
